@@ -593,7 +593,7 @@ class ExprMixin:
             exprs = [a.value if isinstance(a, ast.Starred) else a for a in e.args] + [k.value for k in e.keywords]
 
             def g(vals, s2):
-                args, kwargs = [], {}
+                args, kwargs, maybe = [], {}, []
                 for a, v in zip(e.args, vals):
                     if isinstance(a, ast.Starred):
                         args.extend(self.concrete_items(v, s2))
@@ -603,12 +603,24 @@ class ExprMixin:
                     if k.arg is None:
                         stor = s2.get(v)
                         for kk, (p, vv) in stor["e"].items():
-                            if not z3.is_true(p):
-                                raise Unsupported("**kwargs with maybe-present key")
-                            kwargs[kk] = vv
+                            if z3.is_false(simp(p)):
+                                continue
+                            if not z3.is_true(simp(p)):
+                                maybe.append((kk, p, vv))   # a key that is present on some paths only: the call forks on its presence
+                            else:
+                                kwargs[kk] = vv
                     else:
                         kwargs[k.arg] = v
-                return self.call_value(fv, args, kwargs, s2, node=e)
+
+                def fork(i, s3, kw):
+                    if i == len(maybe):
+                        return self.call_value(fv, args, kw, s3, node=e)
+                    kk, p, vv = maybe[i]
+                    out = []
+                    for present, s4 in self.branch(s3, p):
+                        out.extend(fork(i + 1, s4, dict(kw, **{kk: vv}) if present else kw))
+                    return out
+                return fork(0, s2, kwargs)
             return self.then(self.ev_seq(exprs, s), g)
         return self.then(self.ev(e.func, st), f)
 
